@@ -90,6 +90,7 @@ def table_of(coeff):
 def horner_scale(poly, tl, idx):
     h = (tl[idx + 1] - tl[idx]) if idx + 1 < len(tl) else 0.0
     k = poly.shape[0]
+    idx = min(idx, poly.shape[1] - 1)
     return sum(abs(poly[i, idx]) * abs(h) ** (k - 1 - i) for i in range(k))
 
 
@@ -255,6 +256,10 @@ def run(tier, seed, replay):
               {"tlist": t.tolist(), "samples": [str(x) for x in s], "order": order, "t": q})
             continue
         tl2, poly, dt = table_of(c)
+        if poly.ndim != 2 or poly.shape[1] != len(tl2) or len(tl2) < len(t) or np.any(np.diff(tl2) <= 0):
+            # the table the object holds is not one polynomial per breakpoint on an increasing grid containing the samples
+            v(f"table-shape:order{eff_order}", f"order {eff_order} coefficient on a {kind} grid of {len(t)} samples holds {len(tl2)} breakpoints and a table of shape {poly.shape}", {"tlist": t.tolist(), "samples": [str(x) for x in s], "order": order})
+            continue
         guess = int(rng.integers(0, 2 * len(tl2) + 3))
         smax = max(1.0, float(np.abs(s).max()))
         # (a) model on the samples (orders 0 and 1)
@@ -326,9 +331,10 @@ def run(tier, seed, replay):
         csum = c + cb
         for q, got in zip(qs[:: max(1, len(qs) // 12)], vals[:: max(1, len(qs) // 12)]):
             want = got + complex(cb(q))
-            _, polyb, _ = table_of(cb)
+            tlb, polyb, _ = table_of(cb)
             kq = min(max(int(np.searchsorted(tl2, q, side="right")) - 1, 0), len(tl2) - 1)
-            if abs(complex(csum(q)) - want) > 1e-9 * max(abs(want), smax, horner_scale(poly, tl2, kq), horner_scale(polyb, tl2, kq)):
+            kqb = min(max(int(np.searchsorted(tlb, q, side="right")) - 1, 0), len(tlb) - 1)
+            if abs(complex(csum(q)) - want) > 1e-9 * max(abs(want), smax, horner_scale(poly, tl2, kq), horner_scale(polyb, tlb, kqb)):
                 v(f"sum:order{eff_order}", f"sum of two order {eff_order} coefficients on one grid differs from the sum of their values at t={q!r}", dict(data, t=q, samples2=[str(x) for x in s2]))
         if n >= 3:
             t3 = t.copy()
